@@ -3,20 +3,27 @@
 Streams
   split    parso.utils.split_lines(keepends=True) and Script._code_lines vs the model's
            split_lines / split_lines_parso (exhaustive small alphabet of break-like characters
-           + seeded longer strings); BaseName.get_line_code(before, after) vs model
-  tree     real parso trees (corpus windows, generated sources in LF/CRLF/CR/mixed/no-final-
-           newline variants, tabs, form feeds, unicode identifiers, continuation lines,
-           multi-line strings) serialised into the model's tree; `consistent`, `names_wf`
+           + seeded longer strings) and an independent regex splitter
+  tree     real parso trees (windows of corpus files; generated sources in LF/CRLF/CR/mixed/
+           no-final-newline variants with tabs, form feeds, unicode identifiers, continuation
+           lines, multi-line strings) serialised into the model's tree; `consistent`, `names_wf`
            and get_code = source evaluated in Coq (the hypothesis parso must meet)
-  names    Script.get_names for all flag combinations and helpers.get_module_names (raw
-           order) vs the model's script_names / get_module_names on the serialised tree
+  names    Script.get_names for all flag combinations, helpers.get_module_names (raw order),
+           get_line_code(before, after), definition ranges vs the model's script_names /
+           get_module_names / get_line_code / def_range on the serialised tree
   tokens   oracle: get_names(all_scopes, definitions, references) == the identifier tokens
            of CPython's tokenize, each exactly once; is_definition() == binding tokens from ast
-  api      every Name/Completion/Signature returned by goto / infer / get_references /
+  corpus   whole corpus files through get_names + goto / get_references / get_context with the
+           text, line, range, token and binding oracles
+  api      every Name/Completion/Signature returned by goto / infer / get_references / help /
            complete / get_signatures / search / get_context / parent / defined_names / params
-           that points into the buffer or the second project file: text at (line, column)
-           == name, range encloses, get_line_code() == that line (oracle in Python, the same
-           clauses by the model in Coq), definition range == model def_range on the tree
+           that points into the buffer, the second project file or a stdlib file: text at
+           (line, column) == name, range encloses, get_line_code() == that line (oracle in
+           Python, the same clauses by the model in Coq), definition range == model def_range
+  special  the known refutations (BOM buffer, match statement, `__x` parameter), reproduced on
+           the implementation together with the model's verdict
+
+All Gallina cases are evaluated after the implementation runs, concurrently (run()).
 """
 import ast
 import io
@@ -1461,11 +1468,6 @@ def stream_special(ctx):
         ctx.count('special', t['code'])
         info = dict(tokens=None, binds=None, model_inconsistent=(v == 'false'))
         oracle_names(ctx, 'special-bom', None, 'bom', t['code'], r, info)
-        lines = oracle_lines(t['code'])
-        later = [d for d in r['details'] if d['line'] and d['line'] > 1]
-        for d in later:
-            if check_described(d, lines):
-                raise AssertionError('a name after line 1 of a BOM buffer is off: %r' % (d,))
     r = results[len(srcs)]
     if 'fatal' not in r:
         # `match` / `case` occur in MATCH_SRC only as (soft) keywords
